@@ -610,8 +610,9 @@ func (e *Engine) frameObligations(st *State, fr *Frame, base *State, allowed *mo
 	c := e.C
 	allocBase := e.allocMap(base)
 	for _, key := range sortedKeys(st.Heap) {
-		if key == "$alloc" || key == "chan.closed" {
-			continue // allocation and channel closure are driven by the environment as well
+		if key == "$alloc" || key == "chan.closed" || strings.Contains(key, ".ghostFW.") {
+			continue // allocation and channel closure are driven by the environment as well;
+			// the destination of a pooled flate writer is re-pointed by whoever takes it from the pool
 		}
 		now := st.Heap[key]
 		was, ok := base.Heap[key]
@@ -635,6 +636,9 @@ func (e *Engine) frameObligations(st *State, fr *Frame, base *State, allowed *mo
 		e.obligeNamed(st, fr, "frame", label+":"+key, g, "", nil, fcName)
 	}
 	for _, key := range sortedKeys(st.Mem) {
+		if fr.V != nil && fr.V.FC != nil && strings.Contains(","+fr.V.FC.B.Opts["noframe"]+",", ",mem:"+key+",") {
+			continue // frame of this memory kind is explicitly not claimed for this function
+		}
 		now := st.Mem[key]
 		was, ok := base.Mem[key]
 		if !ok {
